@@ -28,7 +28,7 @@ fn focus_for(prop: &str, args: &Args) -> Focus {
     },
     "C02" => Focus {
       flavours: no_oneshot.clone(),
-      classes: vec![(Class::Blocking, 3), (Class::Batch, 3), (Class::Async, 2), (Class::Mixed, 2), (Class::Try, 1), (Class::Timed, 1)],
+      classes: vec![(Class::Blocking, 3), (Class::Batch, 3), (Class::Async, 2), (Class::AsyncCancel, 2), (Class::Mixed, 2), (Class::Try, 1), (Class::Timed, 1)],
       p_early_exit: (0, 1),
       p_gremlin: (1, 10),
       small_caps: false,
